@@ -71,6 +71,40 @@ R05e  constant-index subscripts.  Every ``X[k]`` / ``X[-k]`` with a literal ``k`
       one-element ``segments`` tuple (what the ``reflow-block`` idiom relies on).
       An ``assert`` is accepted as a guard of the *IndexError* shape only (it turns the
       failure into an AssertionError; counted as ``R05e.guarded.assert``).
+
+R05g  ``assert`` statements.  Every ``assert <cond>`` in ``rules/`` and ``utils/`` (``utils/testing``
+      excluded) raises AssertionError inside a rule when the condition is false, which R05c turns
+      into an "Unexpected exception" violation.  Each one is (inference and idioms: ``sa/asserts.py``)
+
+        discharged    the condition follows from what is known where the assert stands: dominating
+                      branch conditions and earlier asserts (whole formulas, boolean locals and repeated
+                      pure calls looked through), ``for x in Y.recursive_crawl(T..)``, the crawler guarantee
+                      for ``<ctx>.segment`` (``SegmentSeekerCrawler({..})`` / ``RootOnlyCrawler()`` of every
+                      rule class running the function), the functional API (non-empty ``Segments`` =>
+                      ``.get()`` is a segment; a non-empty derived selection => non-empty receiver),
+                      ``"t" in X.direct_descendant_type_set`` <=> ``X.get_child("t")``, ``try/except
+                      AssertionError``, a parameter condition that holds at every call site (``contract``,
+                      ``caller-constants``), a value built by a constructor / non-Optional function
+        typing-only   ``X.pos_marker`` [``is not None``] (also through a local) where X is not a segment
+                      constructed in the same function: every segment of a parsed tree carries a position
+                      marker (lexer, ``BaseSegment.__init__``, re-positioning after each fix loop); the
+                      assert exists for mypy
+        table         an entry of ``R05G_TABLE`` -- read once, keyed by (path, qualified function,
+                      normalised condition) with the number of reviewed occurrences, a class and the reason
+                      why the condition cannot be false:
+                        PARSER / GRAMMAR   shape of parsed nodes / a named fact about the dialect grammars
+                        CONSTRUCTION       follows from how the surrounding code built the value
+                        CONTRACT           established by all callers in the tree (named in the reason)
+                        INVARIANT          data-model invariant of utils/reflow
+                        CONFIG             holds for every documented value of a configuration key
+                                           (an undocumented value makes it fail: noted in the reason)
+                        NO_WITNESS         no argument found and no failing input found: listed, counted
+                                           separately (``R05g.no_witness``), not claimed to be safe
+
+      An assert in none of the groups (new code, a dropped guard, one more occurrence than reviewed)
+      is a violation.  A table entry whose assert vanished or is discharged now is a stale note.
+      What "a segment is always truthy" relies on is checked too: no segment class defines
+      ``__bool__`` / ``__len__``.
 """
 
 from __future__ import annotations
@@ -94,6 +128,7 @@ from ..index import (
 )
 from ..report import construct_of
 from .. import subscripts as _subs
+from .. import asserts as _asserts
 
 SCOPES = ("src/sqlfluff/rules/", "src/sqlfluff/utils/")
 BASE = "src/sqlfluff/core/rules/base.py"
@@ -424,6 +459,8 @@ def run(chk) -> None:
     _r05e(chk)
     chk.rule("R05f", "no WhitespaceSegment is built from a text that may be empty: the text is a non-empty constant, or known to be truthy where the segment is built (dominating test, conditional expression, short circuit), or the site is reviewed into R05F_REVIEWED -- LintFix refuses an edit that contains a segment with an empty raw (\"Invalid edit found\"), which surfaces as an 'Unexpected exception' violation")
     _r05f(chk)
+    chk.rule("R05g", "every assert in rules/ and utils/ is discharged by a fact known where it stands (dominating test, crawler guarantee, functional API, call sites, construction; sa/asserts.py), is a typing-only assertion on a parsed segment's pos_marker, or is reviewed into R05G_TABLE with the reason why its condition cannot be false; no segment class defines __bool__/__len__")
+    _r05g(chk)
 
 
 # ---- R05f -------------------------------------------------------------------
@@ -532,6 +569,177 @@ def _r05f(chk) -> None:
     chk.count("R05f.guarded", n_guard)
     chk.count("R05f.reviewed", n_table)
     chk.floor("R05f.whitespace_constructions_with_text", 5)
+
+
+# ---- R05g -------------------------------------------------------------------
+
+# (path below src/sqlfluff/, qualified function, normalised condition, reviewed occurrences, CLASS, reason)
+_G_CV12 = "where_clause_simplifable is the result of _is_where_clause_simplifable(where_clause), which returns True only after `where_clause.get_child('expression')` was found (`if not expr: return False`); this is the same call on the same where_clause"
+_G_LT05 = "results = ReflowSequence.from_root(..).break_long_lines().get_results(); break_long_lines refuses pre-existing results, so every result comes from lint_line_length, whose only LintResult is built with the anchor first_seg = line_buffer[0].segments[0] -- a segment of a reflow element, i.e. a RawSegment (ReflowSequence._elements_from_raw_segments), and RawSegment._class_types contains 'raw'"
+_G_ALT = "I-ALT: elements alternate ReflowBlock / ReflowPoint (built that way by _elements_from_raw_segments, checked here on construction of every ReflowSequence)"
+_G_RAWS = "raw_segments of a segment is never empty: a raw segment returns [self], a parsed node has at least one child (MatchResult.apply never instantiates a segment class over an empty slice)"
+_G_FIX = "reached only by `break` out of both loops (the inner `else: continue` and the outer `else: raise ValueError`): res / fix are the loop variables of the iteration whose test `fix.edit and insertion.uuid in [..]` was true, fix was drawn from `res.fixes or []`, and LintResult / LintFix define no __bool__ / __len__"
+R05G_TABLE = [
+    # ---- rules/ -------------------------------------------------------------------
+    ("rules/convention/CV12.py", "Rule_CV12._eval_gen", "expr is not None", 1, "CONSTRUCTION", _G_CV12 + " (under `if where_clause_simplifable:`)"),
+    ("rules/convention/CV12.py", "Rule_CV12._eval_gen", "where_clause_expr is not None", 1, "CONSTRUCTION", _G_CV12 + " (after `if not where_clause_simplifable: return`)"),
+    ("rules/jinja/JJ01.py", "Rule_JJ01._find_raw_at_src_idx", "segment.segments", 1, "CONTRACT", "two callers: _eval passes context.segment, the root of a file that has a templated raw slice (RootOnlyCrawler; a lexed file holds at least its placeholders and end_of_file), the recursion passes `seg` only after `seg.is_raw()` was False, and is_raw() is `len(self.segments) == 0`"),
+    ("rules/layout/LT05.py", "Rule_LT05._eval", "res.anchor", 2, "CONSTRUCTION", _G_LT05),
+    ("rules/layout/LT05.py", "Rule_LT05._eval", "res.anchor.is_type('raw')", 2, "CONSTRUCTION", _G_LT05),
+    ("rules/layout/LT09.py", "Rule_LT09._eval_multiple_select_target_elements", "target_initial_code", 1, "PARSER", "select_target is a select_clause_element child of the select clause; a node matched by the grammar holds at least one code raw segment (a match never consists of whitespace / comments / metas only: non-code is only consumed between matched elements)"),
+    ("rules/layout/LT09.py", "Rule_LT09._eval_multiple_select_target_elements", "previous_code", 1, "GRAMMAR", "the selection runs over the raw segments of the select clause before the target: for the first target it contains the SELECT keyword every dialect's SelectClauseSegment starts with (code, not a comma); for a later target it starts right after the previous target's predecessor and so contains the previous target's first code raw, which is not ',' (no select_clause_element starts with a comma); dialect fixtures and 19 hand-made inputs (templated targets, trailing commas, modifiers) gave no witness"),
+    ("rules/structure/ST04.py", "Rule_ST04._eval", "case1_first_case", 1, "GRAMMAR", "the crawler seeks case_expression; both CaseExpressionSegment definitions (ansi, oracle) are OneOf(Sequence('CASE', ..), Sequence('CASE', ..)): the CASE keyword is a mandatory direct child"),
+    ("rules/structure/ST05.py", "_is_child", "len(maybe_child) == 1", 1, "CONTRACT", "only caller _CTEBuilder.insert_cte passes inbound_subquery = Segments(cte).children().last(<has pos_marker>): last() returns at most one segment, and a CTE has a positioned child -- a parsed CTE keeps its markers, a CTE made by _create_cte_seg ends with the cloned (positioned) subquery"),
+    ("rules/structure/ST05.py", "_is_child", "len(maybe_parent) == 1", 1, "CONTRACT", "only caller passes Segments(el).children().last() for a CTEDefinitionSegment el: last() without predicate returns the last child, and a common_table_expression is never childless (MatchResult.apply never instantiates a segment class over an empty slice)"),
+    ("rules/structure/ST05.py", "_get_case_preference", "first_keyword", 1, "GRAMMAR", "only caller passes the segment the rule crawls (select_statement / set_expression / with_compound_statement, after `if not is_select ..: return`): each contains a keyword (SELECT, WITH, ..) at or below its first level, and recursive_crawl('keyword', recurse_into=False) descends until it finds one"),
+    ("rules/structure/ST05.py", "Rule_ST05._eval", "any((from_expression is seg for seg in subquery_parent.recursive_crawl_all()))", 1, "CONSTRUCTION", "_lint_query yields (.., nsq.table_alias.from_expression_element, .., nsq.selectable.selectable, ..) and _nested_subqueries takes table_alias from selectable.select_info.table_aliases: aliases of the FROM clause below that very selectable (get_aliases_from_select) or, for non-select selectables, AliasInfo(.., self.selectable, ..) -- recursive_crawl_all yields the segment itself first"),
+    ("rules/structure/ST07.py", "_extract_deletion_sequence_and_anchor", "insert_anchor", 1, "GRAMMAR", "called only when the join_clause has a USING keyword child; in the join-USING grammars the rule can meet (ansi JoinUsingConditionGrammar, sparksql JoinClauseSegment; the rule returns early for clickhouse) the Bracketed column list is followed by a Dedent -- unconditional in ansi, Conditional(indented_using_on=False) inside plus Conditional(indented_using_on=True) outside in sparksql -- so a sibling follows the brackets for either setting; `JOIN .. USING (x)` in all 28 dialects x both settings gave no witness"),
+    ("rules/structure/ST07.py", "Rule_ST07._eval", "table_a.segment", 1, "CONSTRUCTION", "table_a comes from table_aliases, filtered by `if ta.ref_str`; every AliasInfo with a non-empty ref_str is built with its segment (core/dialects/common.py get_from_expression_element_alias: alias_segment / penultimate_ref.segments[0]; utils/analysis/query.py: `name[0] if name else None` next to `name[0].raw if name else ''`); only AliasInfo('', None, ..) has no segment"),
+    ("rules/structure/ST07.py", "Rule_ST07._eval", "table_b.segment", 1, "CONSTRUCTION", "see table_a.segment"),
+    ("rules/structure/ST12.py", "Rule_ST12._eval", "res.anchor is not None", 1, "CONSTRUCTION", "results is filled in this function only, by LintResult(anchor=terms[i], ..) with terms[i] an element of the collected terminator segments"),
+    # ---- utils/analysis ---------------------------------------------------------------
+    ("utils/analysis/query.py", "Query._extract_subqueries", "selectable.selectable.is_type(*SELECTABLE_TYPES, *SUBSELECT_TYPES)", 1, "CONTRACT", "only caller Query.from_segment passes the Selectables it has just built: Selectable(segment) under `segment.is_type('select_statement', *SUBSELECT_TYPES)` or Selectable(_seg) for _seg from recursive_crawl('select_statement')"),
+    ("utils/analysis/query.py", "Query.from_root", "selectable_segment", 1, "CONTRACT", "two callers: ST03 passes the with_compound_statement its crawler seeks, which recursive_crawl(*SELECTABLE_TYPES, ..) yields itself (allow_self); ST05._nested_subqueries wraps the call in try/except AssertionError (a from_expression_element without selectable is skipped)"),
+    ("utils/analysis/query.py", "Query.from_segment", "segment.is_type(*SELECTABLE_TYPES, *SUBSELECT_TYPES)", 1, "CONTRACT", "callers: AL05 / AM04 / RF03 / ST11 pass the segment of a SegmentSeekerCrawler over select_statement, RF01 over SELECTABLE/SUBSELECT-typed statements, AM07 the set_expression root or its with_compound_statement parent, ST05 after `if not is_select: return`; inside query.py the argument comes from recursive_crawl over SELECTABLE_TYPES / SUBSELECT_TYPES / values_clause (crawl_sources, _extract_subqueries, from_root after its assert, the CTE loop)"),
+    ("utils/analysis/select.py", "get_select_statement_info", "segment.is_type('select_statement')", 1, "CONTRACT", "callers: AL04 / AL05 pass the select_statement their crawler seeks or a parent found by `is_type('select_statement')`, RF02 / RF07 / ST07 a parent_stack entry selected by is_type('select_statement'), ST05 the result of _get_first_select_statement_descendant, Selectable.select_info after `if self.selectable.is_type('select_statement')`"),
+    ("utils/analysis/select.py", "_get_lambda_argument_columns", "start_bracket", 1, "PARSER", "child_segment.is_type('bracketed') holds: a BracketedSegment is built by the Bracketed grammar / bracket matcher around its start_bracket and end_bracket children"),
+    # ---- utils/reflow -------------------------------------------------------------------
+    ("utils/reflow/depthmap.py", "DepthInfo.common_with", "common_hashes", 1, "INVARIANT", "both DepthInfo objects describe raw segments of the same tree (DepthMap.from_parent(root)): their stacks share at least the root ('file') hash"),
+    ("utils/reflow/elements.py", "ReflowPoint.indent_to", "'\\n' not in desired_indent", 1, "CONTRACT", "callers (reindent.py) pass construct_single_indent(..) multiples -- spaces or tabs from the indent_unit / tab_space_size config -- or the current indent of a line as returned by _deduce_line_current_indent, which is the text after the last newline (it asserts the same)"),
+    ("utils/reflow/elements.py", "ReflowPoint.indent_to", "'\\n' in indent_seg.source_str", 1, "CONSTRUCTION", "indent_seg = self._get_indent_segment() is a placeholder here, and that helper returns a placeholder only through its branch `'\\n' in (get_consumed_whitespace(seg) or '')`, where the consumed whitespace is seg.source_str"),
+    ("utils/reflow/elements.py", "ReflowPoint.indent_to", "'\\n' in new_source_str", 1, "CONSTRUCTION", "new_source_str is indent_seg.source_str with only the text after its last newline (current_indent) replaced, and source_str contains a newline (asserted above)"),
+    ("utils/reflow/reindent.py", "_fix_long_line_with_comment", "trailing_comments in ('after', 'before')", 1, "CONFIG", "value of the `trailing_comments` key of [sqlfluff:indentation] (ReflowConfig), documented values `before` / `after`; an undocumented value (e.g. `neither`) does make LT05 fail with this AssertionError -- configuration error, not input dependent"),
+    ("utils/reflow/reindent.py", "lint_line_length", "line_buffer[0].segments", 1, "INVARIANT", "line_buffer[0] is the first element after a line-breaking point, i.e. a ReflowBlock (" + _G_ALT + "; a block holds one segment), or the first element of the file, and _elements_from_raw_segments creates a leading point only from a non-empty buffer"),
+    ("utils/reflow/reindent.py", "has_untemplated_newline", "seg.block_type == 'literal'", 1, "INVARIANT", "a placeholder enters a ReflowPoint only through _elements_from_raw_segments, which puts a segment into the point buffer when it is whitespace / newline / indent or `get_consumed_whitespace(seg)` is all space -- and that helper returns None unless block_type == 'literal'; points built by fixes hold new whitespace / newline segments only"),
+    ("utils/reflow/reindent.py", "_revise_templated_lines", "segment.is_type('placeholder', 'template_loop')", 1, "INVARIANT", "reached only when line.is_all_templates(elements) (every block of the line is a placeholder / template_loop) and `block` iterates line.iter_blocks(elements)"),
+    ("utils/reflow/reindent.py", "_revise_templated_lines", "first_block.segments", 1, "INVARIANT", "elements[first_point_idx + 1] follows an indent point: " + _G_ALT + ", and every ReflowBlock is constructed with a one-element segments tuple (checked by R05e)"),
+    ("utils/reflow/reindent.py", "_deduce_line_current_indent", "'\\n' not in indent_seg.raw", 1, "INVARIANT", "indent_seg is a whitespace segment (from ReflowPoint._get_indent_segment or the leading point of the file); every dialect lexes whitespace with a pattern that excludes \\r and \\n (newline is a separate token), and whitespace inserted by fixes is indent text"),
+    ("utils/reflow/reindent.py", "_crawl_indent_points", "cached_point", 1, "CONSTRUCTION", "cached_indent_stats and cached_point are assigned together (both set at the end of a comment-only line, both reset to None after use): a non-None IndentStats (a NamedTuple of three fields, always truthy) implies a cached point"),
+    ("utils/reflow/reindent.py", "_map_line_buffers", "_pt", 1, "NO_WITNESS", "the loop over range(loc, indent_point.idx) ends with _pt bound to a line-breaking point only if one lies between the untaken indent location and the current point; loc is on an earlier line (`any(ip.idx == loc for ip in point_buffer)` skipped the current one), so a line break should lie in between, but the loop also leaves _pt = None when it runs to the end (the last index is a block); no failing input found (2 500 dialect fixtures, the LT02 yaml cases)"),
+    ("utils/reflow/respace.py", "_extract_alignment_config", "':' in constraint", 1, "CONFIG", "only caller passes post_constraint under `post_constraint.startswith('align')`; the documented form of the spacing_before value is `align:<type>[:<within>[:<scope>[:<space>]]]`; an undocumented value that merely starts with `align` (e.g. `alignx`) fails here -- configuration error"),
+    ("utils/reflow/respace.py", "_extract_alignment_config", "alignment_config[0] == 'align'", 1, "CONFIG", "see `':' in constraint`: `aligned:alias_expression` is the failing (undocumented) value"),
+    ("utils/reflow/respace.py", "handle_respace__inline_without_space", "insertion", 1, "CONSTRUCTION", "under `if existing_fix:`; existing_fix and insertion are assigned together (both branches set both), insertion being prev_block.segments[-1] / next_block.segments[0], a segment"),
+    ("utils/reflow/respace.py", "handle_respace__inline_without_space", "res", 1, "CONSTRUCTION", _G_FIX),
+    ("utils/reflow/respace.py", "handle_respace__inline_without_space", "fix", 1, "CONSTRUCTION", _G_FIX),
+    ("utils/reflow/respace.py", "handle_respace__inline_without_space", "fix in res.fixes", 1, "CONSTRUCTION", _G_FIX),
+    ("utils/reflow/respace.py", "handle_respace__inline_without_space", "fix.edit", 1, "CONSTRUCTION", _G_FIX + " (fix.edit is re-assigned only after this assert)"),
+    ("utils/reflow/respace.py", "determine_constraints", "prev_block", 1, "CONSTRUCTION", "within_spacing is non-empty here, and it is assigned only inside `if prev_block and next_block:`"),
+    ("utils/reflow/sequence.py", "ReflowSequence.from_around_target", "target_raws", 1, "PARSER", _G_RAWS),
+    ("utils/reflow/sequence.py", "ReflowSequence.replace", "target_raws", 1, "PARSER", _G_RAWS),
+    ("utils/reflow/sequence.py", "ReflowSequence._validate_reflow_sequence", "all((isinstance(elem, OddType) for elem in elements[::2]))", 1, "INVARIANT", _G_ALT + "; the AssertionError is caught right here only to log the elements and re-raised"),
+    ("utils/reflow/sequence.py", "ReflowSequence._validate_reflow_sequence", "all((isinstance(elem, EvenType) for elem in elements[1::2]))", 1, "INVARIANT", _G_ALT),
+]
+
+R05G_CLASSES = ("PARSER", "GRAMMAR", "CONFIG", "CONSTRUCTION", "CONTRACT", "INVARIANT", "NO_WITNESS")
+
+
+def _r05g(chk) -> None:
+    repo = chk.repo
+    cx = _asserts.Ctx(repo)
+    table = {}
+    for ent in R05G_TABLE:
+        path, func, text, limit, cls, reason = ent
+        if cls not in R05G_CLASSES:
+            raise AnalysisError(f"R05g: table entry {path}::{func} `{text}` has unknown class {cls}")
+        table[(path, func, text)] = ent
+    open_sites: Dict[tuple, list] = {}
+    n_sites = 0
+    sampled = 0
+    for m, a in _asserts.sites(repo):
+        n_sites += 1
+        group, idiom, why = _asserts.judge(cx, a, m)
+        key = _asserts.site_key(m, a)
+        if group is None:
+            open_sites.setdefault(key, []).append((a, why))
+            continue
+        chk.count(f"R05g.{group}")
+        for part in idiom.split("+"):
+            chk.count(f"R05g.{group}.{part.replace(':', '_')}")
+        if sampled < 6 and idiom not in ("crawler", "typing:pos_marker"):
+            sampled += 1
+            chk.sample({"rule": "R05g", "site": f"{m.relpath}:{a.lineno}", "assert": short(a.test, 70), "group": group, "idiom": idiom})
+    chk.count("R05g.asserts", n_sites)
+    used: Dict[tuple, int] = {}
+    for key, occ in open_sites.items():
+        a0 = occ[0][0]
+        construct = f"src/sqlfluff/{key[0]}::{key[1]}"
+        detail = f"{key[1]}: assert {key[2]}"
+        ent = table.get(key)
+        if ent is None:
+            chk.count("R05g.unreviewed", len(occ))
+            for i, (a, why) in enumerate(occ):
+                chk.fail(
+                    "R05g", a,
+                    f"assert {short(a.test, 90)} in {key[1]}: {why}; when the condition is false the rule raises AssertionError and reports an 'Unexpected exception' "
+                    "instead of its result. Test the condition and skip the construct (return / continue) instead of asserting it, or, if it cannot be false, review it into R05G_TABLE",
+                    detail=detail + (f" #{i + 1}" if len(occ) > 1 else ""), construct=construct,
+                )
+            continue
+        used[key] = len(occ)
+        limit, cls, reason = ent[3], ent[4], ent[5]
+        if len(occ) > limit:
+            chk.count("R05g.unreviewed", len(occ) - limit)
+            chk.fail(
+                "R05g", occ[-1][0],
+                f"{len(occ)} occurrences of assert {short(a0.test, 80)} in {key[1]} that nothing known there implies, but only {limit} reviewed ({cls})",
+                detail=detail + f" (more than {limit} occurrences)", construct=construct,
+            )
+            continue
+        chk.count(f"R05g.table.{cls}", len(occ))
+        chk.count("R05g.table", len(occ))
+        if cls == "NO_WITNESS":
+            chk.count("R05g.no_witness", len(occ))
+            chk.note(f"R05g no witness / no invariant (listed, not claimed safe): {key[0]}::{key[1]} assert {key[2][:80]} -- {reason}")
+        chk.ok("R05g", construct, f"assert {key[2][:90]} [{cls}]")
+    stale = [k for k in table if k not in used]
+    chk.count("R05g.table_entries", len(table))
+    chk.count("R05g.table_entries_stale", len(stale))
+    if stale:
+        chk.note(f"R05g: {len(stale)} reviewed-table entries matched no open assert (removed, or discharged by the inference now): " + "; ".join(f"{a}::{b} {c[:40]}" for a, b, c in stale[:8]))
+    # what N <-> T for Optional[BaseSegment] values relies on
+    for m, c, item in _asserts.segment_truthiness_overrides(repo):
+        chk.fail(
+            "R05g", item,
+            f"segment class {c.name} defines {item.name}: `assert seg` / `if seg:` on an Optional[BaseSegment] no longer means `seg is not None` (R05g and R05e treat a segment as always truthy)",
+            detail=f"{c.name}.{item.name} defined", construct=f"{m.relpath}::{c.name}",
+        )
+    _r05g_crawler_anchor(chk)
+    chk.floor("R05g.asserts", 60)
+    chk.floor("R05g.discharged", 30)
+    chk.floor("R05g.discharged.crawler", 15)
+
+
+def _r05g_crawler_anchor(chk) -> None:
+    """What the ``crawler`` idiom relies on: SegmentSeekerCrawler.crawl hands a context to the rule only
+    when ``is_self_match(context.segment)`` holds, and that is ``segment.is_type(*self.types)``."""
+    CR = "src/sqlfluff/core/rules/crawlers.py"
+    repo = chk.repo
+    f = repo.fn(CR, "SegmentSeekerCrawler.crawl")
+    cfg = cfg_of(f)
+    ys = [n for n in walk_local(f) if isinstance(n, ast.Yield)]
+    if not ys:
+        raise AnalysisError("R05g: SegmentSeekerCrawler.crawl yields no context itself (anchor refactored)")
+    for y in ys:
+        st = cfg.stmt_of(y)
+        conds = cfg.conditions(st) if st is not None else []
+        ok = any(
+            pol and isinstance(e, ast.Call) and last_attr(e) in ("is_self_match", "is_type") and any(norm(a).endswith(".segment") for a in list(e.args) + ([e.func.value] if isinstance(e.func, ast.Attribute) else []))
+            for e, pol in conds
+        )
+        chk.require(
+            ok, "R05g", y,
+            "SegmentSeekerCrawler.crawl yields a context that is not guarded by is_self_match(context.segment): rules whose _eval asserts the type of context.segment "
+            "(34 asserts discharged by the crawler guarantee) would raise AssertionError",
+            detail="SegmentSeekerCrawler.crawl yields only self-matching segments",
+        )
+    m = repo.fn(CR, "SegmentSeekerCrawler.is_self_match")
+    rets = [n for n in walk_local(m) if isinstance(n, ast.Return)]
+    ok = bool(rets) and all(
+        isinstance(r.value, ast.Call) and last_attr(r.value) == "is_type" and len(r.value.args) == 1 and isinstance(r.value.args[0], ast.Starred) and norm(r.value.args[0].value) == "self.types"
+        for r in rets
+    )
+    chk.require(ok, "R05g", m, "SegmentSeekerCrawler.is_self_match is no longer `segment.is_type(*self.types)`: the crawler guarantee used by R05g does not hold", detail="SegmentSeekerCrawler.is_self_match is is_type(*self.types)")
+    chk.count("R05g.crawler_anchor_yields", len(ys))
 
 
 # ---- R05d -------------------------------------------------------------------
@@ -1415,6 +1623,91 @@ VARIANTS = [
         "        if len(segment.segments) not in (1, 2):\n",
         "        if len(segment.segments) < 1 or len(segment.segments) > 2:\n",
         "QUIET", None, "same length test spelled with comparisons",
+    ),
+    # ---- R05g ---------------------------------------------------------------
+    Variant(
+        "lt12-empty-file-guard-dropped", "src/sqlfluff/rules/layout/LT12.py",
+        "        if not segment:\n            # NOTE: Edge case. If the file is totally empty, we won't find a final\n            # segment. In this case return without error.\n            return None\n",
+        "",
+        "R05g", "Rule_LT12._eval", "the guard in front of `assert _trailing_segment` removed: an empty file",
+    ),
+    Variant(
+        "al08-assert-on-an-optional-child", "src/sqlfluff/rules/aliasing/AL08.py",
+        '                column_reference = clause_element.get_child("column_reference")\n',
+        '                column_reference = clause_element.get_child("column_reference")\n                assert column_reference\n',
+        "R05g", "assert column_reference", "a select target that is an expression has no column_reference child",
+    ),
+    Variant(
+        "am05-crawler-widened", "src/sqlfluff/rules/ambiguous/AM05.py",
+        'crawl_behaviour = SegmentSeekerCrawler({"join_clause"})',
+        'crawl_behaviour = SegmentSeekerCrawler({"join_clause", "from_expression"})',
+        "R05g", "Rule_AM05._eval", "the crawler now also yields segments for which the type assert fails",
+    ),
+    Variant(
+        "am03-helper-called-with-the-parent", "src/sqlfluff/rules/ambiguous/AM03.py",
+        "orderby_spec = self._get_orderby_info(context.segment)",
+        "orderby_spec = self._get_orderby_info(context.parent_stack[-1])",
+        "R05g", "_get_orderby_info", "the helper's type assert relied on its only caller",
+    ),
+    Variant(
+        "al05-call-site-guard-dropped", "src/sqlfluff/rules/aliasing/AL05.py",
+        "                and alias.alias_expression\n                and self._followed_by_qualify(context, alias)\n",
+        "                and self._followed_by_qualify(context, alias)\n",
+        "R05g", "_followed_by_qualify", "redshift, table without alias: `assert alias.alias_expression` in the helper",
+    ),
+    Variant(
+        "query-crawl-sources-one-more-type", "src/sqlfluff/utils/analysis/query.py",
+        '            "values_clause",\n            recurse_into=False,\n            allow_self=False,\n        ):\n            # Crawl efficiently',
+        '            "values_clause",\n            "merge_statement",\n            recurse_into=False,\n            allow_self=False,\n        ):\n            # Crawl efficiently',
+        "R05g", "Query.crawl_sources", "the else-branch assert no longer covers everything the crawl yields",
+    ),
+    Variant(
+        "seeker-crawler-yields-every-segment", "src/sqlfluff/core/rules/crawlers.py",
+        "        if self.is_self_match(context.segment):\n            self_match = True\n            yield context\n",
+        "        if self.is_self_match(context.segment):\n            self_match = True\n        yield context\n",
+        "R05g", "SegmentSeekerCrawler.crawl", "the guarantee behind 34 discharged type asserts",
+    ),
+    Variant(
+        "quiet-lt12-guard-in-a-boolean-local", "src/sqlfluff/rules/layout/LT12.py",
+        "        if not segment:\n            # NOTE: Edge case.",
+        "        nothing_found = not segment\n        if nothing_found:\n            # NOTE: Edge case.",
+        "QUIET", None, "R05g: the guard held in a boolean local",
+    ),
+    Variant(
+        "quiet-st04-assert-operand-through-a-local", "src/sqlfluff/rules/structure/ST04.py",
+        "        assert case1_last_when\n",
+        "        last_when = case1_last_when\n        assert last_when\n",
+        "QUIET", None, "R05g: the assert's operand read through a local",
+    ),
+    Variant(
+        "quiet-lt12-assert-spelled-is-not-none", "src/sqlfluff/rules/layout/LT12.py",
+        "        assert _trailing_segment\n",
+        "        assert _trailing_segment is not None\n",
+        "QUIET", None, "R05g: `assert x` <-> `assert x is not None` for an Optional[BaseSegment]",
+    ),
+    Variant(
+        "quiet-select-info-assert-spelled-is-not-none", "src/sqlfluff/utils/analysis/select.py",
+        '    assert _select_clause, "Select statement found without select clause."\n',
+        '    assert _select_clause is not None, "Select statement found without select clause."\n',
+        "QUIET", None, "R05g: repeated get_child(..) tested before, `is not None` spelling",
+    ),
+    Variant(
+        "quiet-am08-segment-through-two-locals", "src/sqlfluff/rules/ambiguous/AM08.py",
+        "        join_clause = context.segment\n",
+        "        seg = context.segment\n        join_clause = seg\n",
+        "QUIET", None, "R05g: crawler guarantee through plain copies",
+    ),
+    Variant(
+        "quiet-am05-crawler-types-spelled-with-set", "src/sqlfluff/rules/ambiguous/AM05.py",
+        'crawl_behaviour = SegmentSeekerCrawler({"join_clause"})',
+        'crawl_behaviour = SegmentSeekerCrawler(set(("join_clause",)))',
+        "QUIET", None, "R05g: same crawler types, different spelling",
+    ),
+    Variant(
+        "quiet-elements-after-guard-as-early-raise", "src/sqlfluff/utils/reflow/elements.py",
+        "                else:\n                    assert after  # mypy hint\n",
+        "                else:\n                    if after is None:\n                        raise NotImplementedError\n                    assert after  # mypy hint\n",
+        "QUIET", None, "R05g: an additional (redundant) guard",
     ),
     Variant(
         "quiet-cv01-condition-through-a-flag", "src/sqlfluff/rules/convention/CV01.py",
